@@ -9,6 +9,9 @@ import (
 	"crypto/sha256"
 	"fmt"
 	"hash"
+	"math/rand"
+	"strings"
+	"sync"
 	"time"
 
 	"github.com/gebn/bmc"
@@ -108,5 +111,59 @@ func init() {
 		out := make([]byte, len(ct)/16*16)
 		cipher.NewCBCDecrypter(blk, unhex(w[2])).CryptBlocks(out, ct[:len(out)])
 		return tohex(out)
+	})
+}
+
+// concprim: the conversions are functions of their arguments - also when several goroutines (one per connection, as in
+// a process that monitors many BMCs) use them at once.  g goroutines, each with its own inputs, n rounds; every result
+// is compared with what the same call returned alone, beforehand.
+func init() {
+	register("concprim", func(w []string) string {
+		g, n, seed := atoi(w[1]), atoi(w[2]), int64(atoi(w[3]))
+		type job struct {
+			enc, c int
+			data   []byte
+			sum    []byte
+			want   string
+		}
+		rng := rand.New(rand.NewSource(seed))
+		eval := func(j *job) string {
+			dec, err := ipmi.StringEncoding(j.enc).Decoder()
+			if err != nil {
+				return "none"
+			}
+			s, k, err := dec.Decode(j.data, j.c)
+			return fmt.Sprintf("%s|%d|%v|%d|%d", tohex([]byte(s)), k, err != nil, ipmi.VerifChecksum(j.sum), dcmi.VerifRollingAvgPeriodByte(time.Duration(len(j.sum))*time.Minute))
+		}
+		jobs := make([]*job, g)
+		for i := range jobs {
+			c := 1 + rng.Intn(30)
+			data := make([]byte, 32)
+			rng.Read(data)
+			sum := make([]byte, 1+rng.Intn(40))
+			rng.Read(sum)
+			jobs[i] = &job{enc: 1 + i%3, c: c, data: data, sum: sum}
+			jobs[i].want = eval(jobs[i])
+		}
+		var wg sync.WaitGroup
+		bad := make([]string, g)
+		for i := range jobs {
+			wg.Add(1)
+			go func(i int) {
+				defer wg.Done()
+				for r := 0; r < n; r++ {
+					if got := eval(jobs[i]); got != jobs[i].want && bad[i] == "" {
+						bad[i] = fmt.Sprintf("goroutine %d round %d encoding %d count %d data %s: %s alone, %s among others", i, r, jobs[i].enc, jobs[i].c, tohex(jobs[i].data), jobs[i].want, got)
+					}
+				}
+			}(i)
+		}
+		wg.Wait()
+		for _, b := range bad {
+			if b != "" {
+				return "mismatch " + strings.ReplaceAll(b, " ", "_")
+			}
+		}
+		return "ok"
 	})
 }
